@@ -134,8 +134,11 @@ Definition check_alert_case (g : alert_case) : list Z :=
     match a_replay cfg evs (a_boot tops initial) O with
     | inl (s, n) =>
         if quiescentb s then
-          if forallb (fun e : positive * comp => served_nowb s (fst e) (snd e) && chainb cfg s 20 (fst e)) (a_owed s) then [] else [34]
-        else []
+          if forallb (fun e : positive * comp => served_nowb s (fst e) (snd e) && chainb cfg s 20 (fst e)) (a_owed s) then
+            (* the record ends well after the last interrupt and ticks take no (virtual) time: nothing may still be owed *)
+            match a_owed s with [] => [] | _ => [37] end
+          else [34]
+        else [36]        (* the record ends although a tick is still running or a message still in flight: ticks take no (virtual) time *)
     | inr (code, i) => [code; Z.of_nat i]
     end
   else [35].
